@@ -9,7 +9,7 @@ open TraitsVerif TraitsVerif.Model.Persist
 
 mutual
 /-- No container in the value is a `Trait*Object` that went through
-`__setstate__` (those have `trait = None` and cannot be deep-copied). -/
+`__setstate__` (kept for statements about the pre-dd9f9de behaviour). -/
 def NoDetached : CVal → Prop
   | .leaf _ => True
   | .node _ _ b _ kids => (∀ via, b ≠ .detached via) ∧ NoDetachedL kids
@@ -19,12 +19,12 @@ def NoDetachedL : List CVal → Prop
 end
 
 mutual
-theorem deepcopyV_spec : ∀ (v : CVal) (n : Nat), NoDetached v →
+/-- `copy.deepcopy` of ANY value succeeds, builds only new container objects and keeps the value. -/
+theorem deepcopyV_spec : ∀ (v : CVal) (n : Nat),
     ∃ v' n', deepcopyV n v = .ok (v', n') ∧ n ≤ n' ∧ (∀ i ∈ ids v', n ≤ i ∧ i < n') ∧ norm v' = norm v
-  | .leaf a, n, _ => ⟨_, n + 1, rfl, Nat.le_succ _, by simp [ids], by simp [norm]⟩
-  | .node k i b keys kids, n, h => by
-    simp only [NoDetached] at h
-    obtain ⟨kids', n', h1, h2, h3, h4⟩ := deepcopyL_spec kids (n + 1) h.2
+  | .leaf a, n => ⟨_, n + 1, rfl, Nat.le_succ _, by simp [ids], by simp [norm]⟩
+  | .node k i b keys kids, n => by
+    obtain ⟨kids', n', h1, h2, h3, h4⟩ := deepcopyL_spec kids (n + 1)
     have hn : (keys.map (Leaf.copiedAt n)).map Leaf.norm = keys.map Leaf.norm := by
       rw [List.map_map]; apply List.map_congr_left; intro a _; simp
     have idsok : ∀ b', ∀ j ∈ ids (CVal.node k n b' (keys.map (Leaf.copiedAt n)) kids'), n ≤ j ∧ j < n' := by
@@ -37,20 +37,21 @@ theorem deepcopyV_spec : ∀ (v : CVal) (n : Nat), NoDetached v →
     | plain =>
       exact ⟨.node k n .plain (keys.map (Leaf.copiedAt n)) kids', n', by simp [deepcopyV, h1], by omega, idsok _,
         by simp [norm, h4, hn]⟩
-    | detached via => exact absurd rfl (h.1 via)
+    | detached via =>
+      exact ⟨.node k n (.detached none) (keys.map (Leaf.copiedAt n)) kids', n', by simp [deepcopyV, h1], by omega,
+        idsok _, by simp [norm, h4, hn]⟩
     | ownerless sh =>
       exact ⟨.node k n (.ownerless sh) (keys.map (Leaf.copiedAt n)) kids', n', by simp [deepcopyV, h1], by omega,
         idsok _, by simp [norm, h4, hn]⟩
     | bound o sh =>
       exact ⟨.node k n (.ownerless sh) (keys.map (Leaf.copiedAt n)) kids', n', by simp [deepcopyV, h1], by omega,
         idsok _, by simp [norm, h4, hn]⟩
-theorem deepcopyL_spec : ∀ (l : List CVal) (n : Nat), NoDetachedL l →
+theorem deepcopyL_spec : ∀ (l : List CVal) (n : Nat),
     ∃ l' n', deepcopyL n l = .ok (l', n') ∧ n ≤ n' ∧ (∀ i ∈ idsL l', n ≤ i ∧ i < n') ∧ normL l' = normL l
-  | [], n, _ => ⟨[], n, rfl, Nat.le_refl _, by simp [idsL], rfl⟩
-  | v :: vs, n, h => by
-    simp only [NoDetachedL] at h
-    obtain ⟨v', n1, a1, a2, a3, a4⟩ := deepcopyV_spec v n h.1
-    obtain ⟨vs', n2, b1, b2, b3, b4⟩ := deepcopyL_spec vs n1 h.2
+  | [], n => ⟨[], n, rfl, Nat.le_refl _, by simp [idsL], rfl⟩
+  | v :: vs, n => by
+    obtain ⟨v', n1, a1, a2, a3, a4⟩ := deepcopyV_spec v n
+    obtain ⟨vs', n2, b1, b2, b3, b4⟩ := deepcopyL_spec vs n1
     refine ⟨v' :: vs', n2, by simp [deepcopyL, a1, b1], by omega, ?_, by simp [normL, a4, b4]⟩
     intro j hj
     simp only [idsL, List.mem_append] at hj
@@ -105,7 +106,7 @@ theorem deepcopyV_ids : ∀ (v : CVal) (n : Nat) (v' : CVal) (n' : Nat), deepcop
         · have := ih.2 j hj; omega
       cases b with
       | plain => simp only at h; cases h; exact ⟨by omega, idsok _⟩
-      | detached via => simp at h
+      | detached via => simp only at h; cases h; exact ⟨by omega, idsok _⟩
       | ownerless sh => simp only at h; cases h; exact ⟨by omega, idsok _⟩
       | bound o sh => simp only at h; cases h; exact ⟨by omega, idsok _⟩
 theorem deepcopyL_ids : ∀ (l : List CVal) (n : Nat) (l' : List CVal) (n' : Nat), deepcopyL n l = .ok (l', n') →
@@ -163,22 +164,21 @@ theorem deepcopyV_valid {E : Env} (hC : CopyStable E) {sh : Shape} {v : CVal} (h
           exact ih kid h1 m kid' m' h2
       cases b with
       | plain => simp only at h; cases h; exact hv _
-      | detached via => simp at h
+      | detached via => simp only at h; cases h; exact hv _
       | ownerless sh => simp only at h; cases h; exact hv _
       | bound o sh => simp only at h; cases h; exact hv _
 
 /-- One iteration of `copy_traits` whose effective mode is deep. -/
 theorem cloneSlot_deep_spec' {E : Env} (hI : Idem E) (hC : CopyStable E) {src : Slot} (hw : WFSlot E src)
     (hc : src.decl.copyable = true) (hk : src.decl.kind ≠ .event) {arg : Option CopyMode}
-    (hm : effMode src.decl.copy arg = .deep) (oS oD n : Nat) (all : Bool)
-    (hd : NoDetached (readSlot E oS n src).1) :
+    (hm : effMode src.decl.copy arg = .deep) (oS oD n : Nat) (all : Bool) :
     ∃ w, (cloneSlot E oS oD arg all n src).1.val = some w ∧
       (cloneSlot E oS oD arg all n src).1.decl = src.decl ∧
       norm w = norm (readSlot E oS n src).1 ∧ Live E oD src.decl.shape w ∧
       (∀ i ∈ ids w, (readSlot E oS n src).2.2 ≤ i) ∧
       (cloneSlot E oS oD arg all n src).2.1 = (readSlot E oS n src).2.1 := by
   obtain ⟨hv, _, _, _⟩ := readSlot_spec hI hw oS n
-  obtain ⟨u, n1, h1, h2, h3, h4⟩ := deepcopyV_spec _ (readSlot E oS n src).2.2 hd
+  obtain ⟨u, n1, h1, h2, h3, h4⟩ := deepcopyV_spec (readSlot E oS n src).1 (readSlot E oS n src).2.2
   have hvu := deepcopyV_valid hC hv _ _ _ h1
   obtain ⟨w, n2, h5, h6⟩ := validate_of_valid hvu oD n1
   have hl := validate_ids oD _ _ _ _ _ h5
@@ -194,13 +194,13 @@ theorem cloneSlot_deep_spec' {E : Env} (hI : Idem E) (hC : CopyStable E) {src : 
 theorem cloneSlot_deep_spec {E : Env} (hI : Idem E) (hC : CopyStable E) {src : Slot} (hw : WFSlot E src)
     (hc : src.decl.copyable = true) (hk : src.decl.kind ≠ .event)
     (hm : src.decl.copy = none ∨ src.decl.copy = some .deep)
-    (oS oD n : Nat) (all : Bool) (hd : NoDetached (readSlot E oS n src).1) :
+    (oS oD n : Nat) (all : Bool) :
     ∃ w, (cloneSlot E oS oD (some .deep) all n src).1.val = some w ∧
       (cloneSlot E oS oD (some .deep) all n src).1.decl = src.decl ∧
       norm w = norm (readSlot E oS n src).1 ∧ Live E oD src.decl.shape w ∧
       (∀ i ∈ ids w, (readSlot E oS n src).2.2 ≤ i) ∧
       (cloneSlot E oS oD (some .deep) all n src).2.1 = (readSlot E oS n src).2.1 := by
-  apply cloneSlot_deep_spec' hI hC hw hc hk _ oS oD n all hd
+  apply cloneSlot_deep_spec' hI hC hw hc hk _ oS oD n all
   rcases hm with h | h <;> simp [effMode, h]
 
 /-! ## `clone_traits(copy='deep')`, all slots -/
